@@ -225,6 +225,8 @@ impl<'a> PrettyPrinter<'a> {
     }
 
     pub(super) fn convert_arg(&'a self, ctx: Context, arg: Arg<'a>) -> ArenaDoc<'a> {
+        #[cfg(typstyle_verif)]
+        crate::verif_hooks::convert(crate::verif_hooks::Point::ConvertArg, arg.to_untyped());
         match arg {
             Arg::Pos(p) => self.convert_expr(ctx, p),
             Arg::Named(n) => self.convert_named(ctx, n),
